@@ -281,7 +281,9 @@ def propagate_locals(fn):
                 q = parents.get(q)
             if in_loop and any(id(u) not in later for u in loads.get(name, [])):
                 continue
-            single_use = len(uses) == 1 and not any(
+            # an object creation (Signal(..), Module(), ..) is an identity, not a sub-expression: it stays a named local
+            creates = isinstance(asg.value, ast.Call) and (dotted(asg.value.func) or "x").split(".")[-1][:1].isupper()
+            single_use = len(uses) == 1 and not creates and not any(
                 isinstance(x, (ast.Yield, ast.YieldFrom, ast.Await, ast.NamedExpr)) for x in ast.walk(asg.value))
             if not (_pure(asg.value) or single_use):
                 continue
